@@ -9,8 +9,11 @@ import (
 	"encoding/hex"
 	"fmt"
 	"os"
+	"runtime"
 	"sort"
 	"strings"
+	"sync/atomic"
+	"time"
 
 	"verifharness/lib/mon"
 	"verifharness/lib/steps"
@@ -172,6 +175,7 @@ func runOne(e *Entry, data []byte, ticks bool) (o outcome) {
 	if ticks {
 		steps.Begin(steps.Budget(len(data)))
 	}
+	currentEntry.Store(e.Name)
 	o.class = e.F(data)
 	return
 }
@@ -197,8 +201,29 @@ func report(m *mon.M, e *Entry, data []byte, kind string, o outcome, worker int)
 	}
 }
 
+var currentEntry atomic.Value // name of the entry most recently started (exact in tick mode, indicative in parallel mode)
+
+// memoryWatchdog ends the process with a "fatal error:" line (which check.py turns into a violation carrying the
+// last inputs) when the heap passes a bound no linear-time decoder of <= 128 KiB inputs can need: a decoder that
+// allocates exponentially would otherwise take the machine down before any verdict is written.
+func memoryWatchdog(limit uint64) {
+	go func() {
+		var ms runtime.MemStats
+		for {
+			time.Sleep(100 * time.Millisecond)
+			runtime.ReadMemStats(&ms)
+			if ms.HeapAlloc > limit {
+				e, _ := currentEntry.Load().(string)
+				fmt.Printf("\nfatal error: verif memory watchdog: heap %d MiB (> %d MiB) while decoding, entry %q: allocation out of all proportion to the input size\n", ms.HeapAlloc>>20, limit>>20, e)
+				os.Exit(86)
+			}
+		}
+	}()
+}
+
 // Run executes the workload for every entry.
 func Run(m *mon.M, entries []Entry, opt Options) {
+	memoryWatchdog(6 << 30)
 	ticks := Ticks()
 	per := m.N(opt.PerEntryQuick, opt.PerEntryThorough)
 	if ticks {
@@ -319,13 +344,17 @@ var growthSizes = []int{4096, 8192, 16384, 32768, 65536}
 func growth(m *mon.M, e *Entry) {
 	table := map[string][]int64{}
 	for _, f := range e.Families {
-		var ts []int64
+		var ts, allocs []int64
 		var lens []int
 		abort := false
 		for _, n := range growthSizes {
 			data := f.Gen(n)
 			m.LastInput(0, e.Name+"/"+f.Name, data)
+			var m0, m1 runtime.MemStats
+			runtime.ReadMemStats(&m0)
 			o := runOne(e, data, true)
+			runtime.ReadMemStats(&m1)
+			allocs = append(allocs, int64(m1.TotalAlloc-m0.TotalAlloc))
 			m.Case()
 			m.Classf("%s/family:%s/%d/%s", e.Name, f.Name, n, o.class)
 			ts = append(ts, o.ticks)
@@ -340,9 +369,17 @@ func growth(m *mon.M, e *Entry) {
 			}
 		}
 		table[f.Name] = ts
+		table[f.Name+" (bytes allocated)"] = allocs
 		m.Count("growth_families_measured", 1)
 		if abort || len(ts) < 5 {
 			continue
+		}
+		// bytes allocated are a lower bound on the work done (also inside standard-library callees, which ticks
+		// do not see): the same growth law, for allocations above 1 MiB
+		if allocs[4] > 1<<20 && ratio(allocs[4], allocs[3]) > 3 && ratio(allocs[3], allocs[2]) > 3 {
+			m.Violation("c07:super-linear-allocation:"+e.Name+":"+f.Name,
+				fmt.Sprintf("bytes allocated %v for input sizes %v: quadrupling per doubling, so time cannot be linear", allocs, lens),
+				map[string]interface{}{"entry": e.Name, "family": f.Name, "allocated": allocs, "sizes": lens})
 		}
 		r1 := ratio(ts[4], ts[3])
 		r2 := ratio(ts[3], ts[2])
